@@ -371,16 +371,36 @@ def fam_wellformed(tier):
             "global": ("let g0: %s = %s\n" % (t, l1), "    let z: %s = g0\n" % t),
             "closure-capture": ("", "    fn inner(b: int) -> int {\n        let z: %s = a\n        %s\n        return b\n    }\n    (println (inner 1))\n    let z: %s = a\n" % (t, cons.replace("\n    ", "\n        "), t)),
         }
+        prods["param-direct"] = ("", "")
         for pn, (top, body) in prods.items():
             for rk in ("int", "same"):
                 rt = "int" if rk == "int" else t
                 ret = "0" if rk == "int" else "z"
+                if pn == "param-direct":          # consume the parameter itself, no intermediate let
+                    cons0, cons, ret = cons, re.sub(r"\bz\b", "a", cons), ("0" if rk == "int" else "a")
                 src = (WPRE + top + "fn c(a: %s, c: bool, u: U) -> %s {\n%s    %s\n    return %s\n}\nshadow c { assert true }\n" % (t, rt, body, cons, ret) +
                        "fn main() -> int {\n    let r1: %s = (c %s true U.L { v: 1 })\n    let r2: %s = (c %s false U.R { s: \"w\" })\n    (println \"ran\")\n    return 0\n}\nshadow main { assert true }\n" % (rt, l1, rt, l1))
                 yield ("wf %s via %s returning %s" % (k, pn, rk), src)
+                if pn == "param-direct":
+                    cons = cons0
 
 
-FAMILIES = [fam_binop, fam_unop, fam_slots, fam_builtins, fam_scope, fam_consts, fam_literals, fam_globals, fam_wellformed]
+def fam_samenames(tier):
+    """two functions re-using the same parameter / local names at different types (the checker's symbol table is
+    never popped, so every later by-name lookup - type checker, transpiler, bytecode compiler - sees both)"""
+    for k1, t1, (l1a, l1b), c1 in WK:
+        for k2, t2, (l2a, l2b), c2 in WK:
+            if k1 == k2:
+                continue
+            body = lambda cons: "    %s\n    let z: %%s = a\n    %s\n" % (re.sub(r"\bz\b", "a", cons), cons)
+            src = (WPRE +
+                   "fn f1(a: %s) -> int {\n%s    return 1\n}\nshadow f1 { assert true }\n" % (t1, body(c1) % t1) +
+                   "fn f2(a: %s) -> int {\n%s    return 2\n}\nshadow f2 { assert true }\n" % (t2, body(c2) % t2) +
+                   "fn main() -> int {\n    (println (f1 %s))\n    (println (f2 %s))\n    (println (f1 %s))\n    (println \"ran\")\n    return 0\n}\nshadow main { assert true }\n" % (l1a, l2a, l1b))
+            yield ("samenames %s then %s" % (k1, k2), src)
+
+
+FAMILIES = [fam_binop, fam_unop, fam_slots, fam_builtins, fam_scope, fam_consts, fam_literals, fam_globals, fam_wellformed, fam_samenames]
 
 # ------------------------------------------------------------------------------------------ running
 _ST = {}
